@@ -29,7 +29,8 @@ def lane_dirs(k):
     if not os.path.isdir(v):
         shutil.copytree(VERIF, v, ignore=shutil.ignore_patterns(".git", "seeded", "replays"), symlinks=True)
         gm = os.path.join(v, "harness", "go.mod")
-        open(gm, "w").write(open(gm).read().replace("=> /repo", "=> " + r))
+        txt = open(gm).read().replace("=> /repo", "=> " + r)
+        open(gm, "w").write(txt)
     return v, r
 
 
@@ -77,7 +78,7 @@ def main():
             dirs.append(a)
     patches = []
     for d in dirs:
-        patches += sorted(os.path.join(d, n) for n in os.listdir(d) if n.endswith(".diff"))
+        patches += sorted(os.path.join(os.path.abspath(d), n) for n in os.listdir(d) if n.endswith(".diff"))
     os.makedirs(LAB, exist_ok=True)
     free = list(range(lanes))
     out = open(outp, "a")
